@@ -1,0 +1,232 @@
+// verif.rs - verification hooks (compiled only with --cfg irc_verif)
+//
+// Read-only observation of the volatile state and a FIFO marker for the
+// per-user message queues. Nothing here is compiled into normal builds.
+
+use super::*;
+
+fn js(s: &str) -> String {
+    let mut o = String::with_capacity(s.len() + 2);
+    o.push('"');
+    for c in s.chars() {
+        match c {
+            '"' => o.push_str("\\\""),
+            '\\' => o.push_str("\\\\"),
+            c if (c as u32) < 0x20 || (c as u32) == 0x7f => {
+                o.push_str(&format!("\\u{:04x}", c as u32))
+            }
+            c => o.push(c),
+        }
+    }
+    o.push('"');
+    o
+}
+
+fn jlist<'a, I: Iterator<Item = &'a String>>(it: I) -> String {
+    let mut v: Vec<&String> = it.collect();
+    v.sort();
+    format!(
+        "[{}]",
+        v.iter().map(|s| js(s)).collect::<Vec<_>>().join(",")
+    )
+}
+
+fn jset(s: &Option<std::collections::HashSet<String>>) -> String {
+    match s {
+        Some(s) => jlist(s.iter()),
+        None => "[]".to_string(),
+    }
+}
+
+fn jopt(s: &Option<String>) -> String {
+    match s {
+        Some(s) => js(s),
+        None => "null".to_string(),
+    }
+}
+
+impl MainState {
+    // canonical JSON rendering of the whole volatile state (maps sorted, no timestamps).
+    pub(crate) async fn verif_dump(&self) -> String {
+        let state = self.state.read().await;
+        let mut users: Vec<(&String, &User)> = state.users.iter().collect();
+        users.sort_by(|a, b| a.0.cmp(b.0));
+        let users_s = users
+            .iter()
+            .map(|(n, u)| {
+                format!(
+                    "{}:{{\"name\":{},\"realname\":{},\"host\":{},\"source\":{},\"modes\":{},\
+                     \"away\":{},\"channels\":{},\"invited\":{},\"kill_pending\":{},\
+                     \"sender_closed\":{},\"hist\":[{},{},{}]}}",
+                    js(n),
+                    js(&u.name),
+                    js(&u.realname),
+                    js(&u.hostname),
+                    js(&u.source),
+                    js(&u.modes.to_string()),
+                    jopt(&u.away),
+                    jlist(u.channels.iter()),
+                    jlist(u.invited_to.iter()),
+                    u.quit_sender.is_none(),
+                    u.sender.is_closed(),
+                    js(&u.history_entry.username),
+                    js(&u.history_entry.hostname),
+                    js(&u.history_entry.realname)
+                )
+            })
+            .collect::<Vec<_>>()
+            .join(",");
+        let mut chans: Vec<(&String, &Channel)> = state.channels.iter().collect();
+        chans.sort_by(|a, b| a.0.cmp(b.0));
+        let chans_s = chans
+            .iter()
+            .map(|(n, c)| {
+                let m = &c.modes;
+                let mut flags = String::new();
+                if m.invite_only {
+                    flags.push('i');
+                }
+                if m.moderated {
+                    flags.push('m');
+                }
+                if m.secret {
+                    flags.push('s');
+                }
+                if m.protected_topic {
+                    flags.push('t');
+                }
+                if m.no_external_messages {
+                    flags.push('n');
+                }
+                let mut cu: Vec<(&String, &ChannelUserModes)> = c.users.iter().collect();
+                cu.sort_by(|a, b| a.0.cmp(b.0));
+                let cu_s = cu
+                    .iter()
+                    .map(|(n, f)| {
+                        let mut r = String::new();
+                        if f.founder {
+                            r.push('q');
+                        }
+                        if f.protected {
+                            r.push('a');
+                        }
+                        if f.operator {
+                            r.push('o');
+                        }
+                        if f.half_oper {
+                            r.push('h');
+                        }
+                        if f.voice {
+                            r.push('v');
+                        }
+                        format!("{}:{}", js(n), js(&r))
+                    })
+                    .collect::<Vec<_>>()
+                    .join(",");
+                let mut bi: Vec<(&String, &BanInfo)> = c.ban_info.iter().collect();
+                bi.sort_by(|a, b| a.0.cmp(b.0));
+                let bi_s = bi
+                    .iter()
+                    .map(|(k, v)| format!("{}:{}", js(k), js(&v.who)))
+                    .collect::<Vec<_>>()
+                    .join(",");
+                let d = &c.default_modes;
+                format!(
+                    "{}:{{\"topic\":{},\"flags\":{},\"key\":{},\"limit\":{},\"ban\":{},\
+                     \"exception\":{},\"invex\":{},\"founders\":{},\"protecteds\":{},\
+                     \"operators\":{},\"half_operators\":{},\"voices\":{},\
+                     \"default\":{{\"founders\":{},\"protecteds\":{},\"operators\":{},\
+                     \"half_operators\":{},\"voices\":{}}},\"ban_info\":{{{}}},\
+                     \"users\":{{{}}},\"preconfigured\":{}}}",
+                    js(n),
+                    match &c.topic {
+                        Some(t) => format!("[{},{}]", js(&t.topic), js(&t.nick)),
+                        None => "null".to_string(),
+                    },
+                    js(&flags),
+                    jopt(&m.key),
+                    match m.client_limit {
+                        Some(l) => l.to_string(),
+                        None => "null".to_string(),
+                    },
+                    jset(&m.ban),
+                    jset(&m.exception),
+                    jset(&m.invite_exception),
+                    jset(&m.founders),
+                    jset(&m.protecteds),
+                    jset(&m.operators),
+                    jset(&m.half_operators),
+                    jset(&m.voices),
+                    jlist(d.founders.iter()),
+                    jlist(d.protecteds.iter()),
+                    jlist(d.operators.iter()),
+                    jlist(d.half_operators.iter()),
+                    jlist(d.voices.iter()),
+                    bi_s,
+                    cu_s,
+                    c.preconfigured
+                )
+            })
+            .collect::<Vec<_>>()
+            .join(",");
+        let mut hist: Vec<(&String, &Vec<NickHistoryEntry>)> = state.nick_histories.iter().collect();
+        hist.sort_by(|a, b| a.0.cmp(b.0));
+        let hist_s = hist
+            .iter()
+            .map(|(n, es)| {
+                format!(
+                    "{}:[{}]",
+                    js(n),
+                    es.iter()
+                        .map(|e| format!(
+                            "[{},{},{}]",
+                            js(&e.username),
+                            js(&e.hostname),
+                            js(&e.realname)
+                        ))
+                        .collect::<Vec<_>>()
+                        .join(",")
+                )
+            })
+            .collect::<Vec<_>>()
+            .join(",");
+        format!(
+            "{{\"users\":{{{}}},\"channels\":{{{}}},\"wallops\":{},\"invisible_count\":{},\
+             \"operators_count\":{},\"max_users_count\":{},\"histories\":{{{}}},\
+             \"conns_count\":{},\"server_quit\":{}}}",
+            users_s,
+            chans_s,
+            jlist(state.wallops_users.iter()),
+            state.invisible_users_count,
+            state.operators_count,
+            state.max_users_count,
+            hist_s,
+            self.conns_count.load(Ordering::SeqCst),
+            state.quit_sender.is_none()
+        )
+    }
+
+    // push a marker line through the message queue of every user that has no KILL pending;
+    // the queue is FIFO, so a connection that emits the marker has emitted everything
+    // queued for it before. Returns the number of queues reached.
+    pub(crate) async fn verif_marker_all(&self, token: &str) -> usize {
+        let state = self.state.read().await;
+        let mut n = 0;
+        for u in state.users.values() {
+            if u.quit_sender.is_some() && u.sender.send(token.to_string()).is_ok() {
+                n += 1;
+            }
+        }
+        n
+    }
+
+    // classification of a PRIVMSG/NOTICE target: flag bits and channel part
+    pub(crate) fn verif_target_type(target: &str) -> String {
+        let (t, c) = get_privmsg_target_type(target);
+        format!("{} {}", t.bits(), js(c))
+    }
+
+    pub(crate) fn verif_conns_count(&self) -> usize {
+        self.conns_count.load(Ordering::SeqCst)
+    }
+}
